@@ -116,4 +116,16 @@ CHECKS = {
         "text": "Isosteric: dH in {5,10,20,40,60} kJ/mol x all 26 temperature subsets x ascending/descending/rotated order x Langmuir/Toth/DS-Langmuir x model isotherm or 300-point isotherm x 3 unit configurations: result = dH at every loading (1e-6 / 1e-2), slope = -dH/R. Whittaker: TLC computes p_k, classifies each loading against p_triple, min(p_sat,p_c), p_c and requires lambda + h_vap + RT (1e-6); inside loadings reported, loadings above p_c omitted. Initial enthalpy point: first enthalpy row of the chosen branch over 12 branch layouts x 3 patterns x 2 branches.",
         "note": "Trusted: K(T), ln and real powers are harness input (R = 8.314462618); h_vap, p_triple, p_sat, p_c are adsorbate-API observations; omission is checked as inclusion ('omits only'); relative-pressure mode and volume_liquid basis are not 'common units' and are not exercised.",
     },
+    "C08": {
+        "level": "model_checking",
+        "technique": "TLA+ dictionary model of the SQLite store (spec/Store.tla: prescriptive Spec*, implementation-shaped Impl* with session registries, REAL affinity, bookkeeping columns) model-checked by TLC (StoreMC: all reachable states of one file, two files depth-bounded; invariants DictionaryModel, Integrity, StepLaws, RetrieveThenDelete, Independence, SameContentSameOutcome); Impl-vs-Spec divergence classes with shortest witness histories; TLC step oracle (StoreOracle) validating every public call of witness, scripted and TLC -simulate histories replayed on real db_create files",
+        "text": "TLC proves on the finite abstraction that any history of allowed steps keeps the dictionary model, referential integrity, refusal-changes-nothing, retrieve-then-delete and file independence; every executed public call (outcome, projection of both files read through an independent sqlite3 connection, *_from_db result) is validated against Store!SpecStep from its recorded pre-state.",
+        "note": "Trusted: the projection code (harness/store_common) with concrete fixtures standing for content tokens; isotherm content compared with the material reduced to its name; None and list metadata treated as not storable; histories are sampled (138 quick / ~2 000 thorough), the model is exhaustive. Three known findings (REAL-affinity coercion of metadata and its consequences for delete-through-retrieved; id depending on the session's material object).",
+    },
+    "C09": {
+        "level": "model_checking",
+        "technique": "TLA+ statement-level transaction machine (spec/StoreTx.tla: connection discipline, rollback-journal semantics, faults, crashes incl. inside commit) checked by TLC on the real call shapes taken from statement logs (StoreTxMC: AtomicAlways, OutcomeMatches, Repeatable, RegistryAgrees, NoCommitAfterFault); TLC trace validation (StoreTxTrace) of all statement logs recorded through a sqlite3 proxy installed from outside; exhaustive fault and crash enumeration on the real code judged by StoreTxOracle",
+        "text": "Every public write operation x prior content class x every statement position x {IntegrityError, InterfaceError, OperationalError, Python exception} and process death (os._exit in a forked child) before/after statements and around commit: afterwards the file, read through an independent connection, must equal the pre-state or the complete post-state, be referentially intact, and the same operation repeated without fault must succeed (or be refused exactly as from the pre-state).",
+        "note": "Trusted: interposition on the module attribute pygaps.parsing.sqlite.sqlite3 (exit 2 if it stops taking effect); a fault = statement k not executed and the sqlite3 exception raised; a crash inside the commit itself is explored in the model only; SQLite's own journal atomicity is assumed.",
+    },
 }
